@@ -39,7 +39,7 @@ WorkerOf(x) ==
     rpower |-> x.rpower, ds |-> x.ds, final |-> x.final ]
 
 FromLog(j, c) ==
-  [ h |-> j.h, c |-> [c EXCEPT !.fd = j.afd], pw |-> j.powers, kfd |-> j.kfd, cfd |-> j.cfd,
+  [ h |-> j.h, c |-> [c EXCEPT !.fd = j.afd], pw |-> j.powers, cv |-> j.cv, dv |-> j.dv, kfd |-> j.kfd, cfd |-> j.cfd,
     prices |-> [t \in TOKENS |->
                   LET P == {x \in Rng(j.prices) : x.t = t} IN
                   IF P = {} THEN [next |-> 1, list |-> <<>>]
@@ -77,7 +77,7 @@ C12State(post) ==
 \* the accepted reports of that round (including this tx) carry a super-majority, and the recorded
 \* value is a value a super-majority agreed on for one source round
 C12Tx(pre, post, msgs, ok, subs) ==
-  LET c == [pre.c EXCEPT !.pw = pre.pw]
+  LET c == [pre.c EXCEPT !.pw = pre.dv]   \* the voting power that counts is x/dogfood's validator set, not the aggregator's belief
       rec == UNION {{[t |-> t, e |-> e] : e \in NewEntries(pre, post, t)} : t \in TOKENS}
       fOf(t) == {f \in FeedersOfTok(c, t) : \E i \in DOMAIN msgs : msgs[i].f = f}
   IN T(\A x \in rec : ok /\ fOf(x.t) # {}, "C12_RecordedByRejectedTx") \cup
@@ -153,7 +153,7 @@ DivF(post, twin) ==
 (***************************************************************************)
 (* strict lane                                                             *)
 (***************************************************************************)
-Fields == {"h", "c", "pw", "prices", "nonce", "rmsgs", "rmIdx", "rparams", "rpIdx", "vub", "kfd", "rounds", "aggs", "cmsgs", "cvu", "cpu", "cfd", "upd"}
+Fields == {"h", "c", "pw", "cv", "dv", "prices", "nonce", "rmsgs", "rmIdx", "rparams", "rpIdx", "vub", "kfd", "rounds", "aggs", "cmsgs", "cvu", "cpu", "cfd", "upd"}
 StrictTags(pre, post, ev, a, ok, j) ==
   LET r == Apply(pre, ev, a) IN
   T(Assumed(j, pre.c), "STRICT_assumption_" \o ev) \cup
@@ -202,7 +202,7 @@ Next ==
      ELSE IF line.ev = "Tx" THEN
        LET post == FromLog(line.st, L.c)
            twin == FromLog(line.cst, L.c)
-           c    == [L.c EXCEPT !.pw = L.pw]
+           c    == [L.c EXCEPT !.pw = L.dv]
            a    == [msgs |-> [i \in DOMAIN line.a.msgs |-> [v |-> line.a.msgs[i].v, f |-> line.a.msgs[i].f, base |-> line.a.msgs[i].base,
                                 nonce |-> line.a.msgs[i].nonce, ps |-> [k \in DOMAIN line.a.msgs[i].ps |-> [d |-> line.a.msgs[i].ps[k].d, p |-> line.a.msgs[i].ps[k].p]]]]]
            msgsF == {a.msgs[i].f : i \in DOMAIN a.msgs}
@@ -224,10 +224,11 @@ Next ==
                    StrictTags(L, post, "Tx", a, line.ok, line.st)
        IN /\ L' = post /\ G' = g2 /\ R' = r2
           /\ Emit(l, "Tx", tags, r2, post, twin, fin, msgsF)
-     ELSE IF line.ev \in {"Upd", "Add"} THEN
+     ELSE IF line.ev \in {"Upd", "Add", "Stake"} THEN
        LET post == FromLog(line.st, L.c)
            twin == FromLog(line.cst, L.c)
            a    == IF line.ev = "Upd" THEN [f |-> line.a.f, end |-> line.a.end]
+                   ELSE IF line.ev = "Stake" THEN [v |-> line.a.v, x |-> line.a.x]
                    ELSE [tok |-> line.a.tok, start |-> line.a.start, iv |-> line.a.iv, sr |-> line.a.sr]
            tags == C12State(post) \cup
                    T(\A t \in TOKENS : post.prices[t] = L.prices[t], "C12_RecordedByRejectedTx") \cup
